@@ -1,6 +1,7 @@
 package props
 
 import (
+	"github.com/form3tech-oss/f1/v2/internal/trigger/file"
 	"github.com/form3tech-oss/f1/v2/internal/trigger/api"
 	"github.com/form3tech-oss/f1/v2/internal/ui"
 	"fmt"
@@ -120,14 +121,30 @@ func c11Run(c *core.Case, o *core.Outcome) {
 		if viaFlags {
 			// through the command's flag set; 86400 happens to be the flag's default value and is a volume like any other
 			viaRates = false
-			if r.IntN(2) == 0 {
+			switch r.IntN(4) {
+			case 0, 1:
 				vol = 86400
+			case 2:
+				// --volume is a float: a fraction of an iteration per window is carried like any other remainder
+				vol = float64(1+r.IntN(40)) + []float64{0.5, 0.25, 0.4, 0.75}[r.IntN(4)]
 			}
 		}
 		desc := fmt.Sprintf("vol=%g f=%v n=%d peak=%v sigma=%v weights=[%s] api=%v", vol, f, n, peak, sigma, strings.Join(ws, ","), viaRates)
 
 		var rate func(time.Time) int
-		if viaFlags {
+		if !viaFlags && nw == 0 && r.IntN(6) == 0 {
+			// a config-file stage that says "no weights" (an explicitly empty list) under a default section with weights
+			y := fmt.Sprintf("scenario: s\nlimits:\n  max-duration: 10000h\n  concurrency: 1\n  max-iterations: 0\n  ignore-dropped: true\ndefault:\n  distribution: none\n  jitter: 0\n  weights: \"1,3\"\nstages:\n- duration: 9000h\n  mode: gaussian\n  volume: %s\n  repeat: %s\n  iteration-frequency: %s\n  peak: %s\n  standard-deviation: %s\n  weights: \"\"\n",
+				strconv.FormatFloat(vol, 'f', -1, 64), R, f, peak, sigma)
+			rs, perr := file.ParseConfigFile([]byte(y), time.Now())
+			desc += " via a config-file stage with weights \"\" under default weights 1,3"
+			if perr != nil || len(rs.Stages) != 1 || rs.Stages[0].Rate == nil {
+				o.Violate("gauss-rejected:"+desc, "valid gaussian stage rejected: %s: %v", desc, perr)
+				return
+			}
+			rate = rs.Stages[0].Rate
+			viaRates = false
+		} else if viaFlags {
 			b := gaussian.Rate(ui.NewDiscardOutput())
 			args := []string{"--volume", strconv.FormatFloat(vol, 'f', -1, 64), "--repeat", R.String(), "--iteration-frequency", f.String(), "--peak", peak.String(),
 				"--standard-deviation", sigma.String(), "--distribution", "none", "--jitter", "0"}
@@ -210,7 +227,7 @@ func c11Run(c *core.Case, o *core.Outcome) {
 		if nw > 0 {
 			windows = 2 * nw
 		}
-		if sigma*80 < R && n <= 20000 {
+		if (sigma*80 < R || vol < 100) && n <= 20000 {
 			// a narrow bell in a long window: the fraction left at the end of one window is owed to the next
 			windows = max(windows, 8)
 			if nw > 0 {
